@@ -3,6 +3,7 @@ package vh
 import (
 	"errors"
 	"sync"
+	"sync/atomic"
 
 	erpc "github.com/henrylee2cn/erpc/v6"
 )
@@ -17,6 +18,21 @@ type plugCore struct {
 	vkind  string // "veto" (default) or "panic"
 	fired  bool
 	Events []string
+	muted  int32 // set when the scenario the plugin belongs to is over: later hook runs are not recorded
+	gen    int64 // generation of the trace the plugin was created for
+}
+
+// MutePlug stops a recording plugin from recording (a hook that runs after its scenario is over must not
+// show up in the trace of the next one).
+func MutePlug(pl erpc.Plugin) {
+	switch x := pl.(type) {
+	case *PlugAll:
+		atomic.StoreInt32(&x.muted, 1)
+	case *PlugHdr:
+		atomic.StoreInt32(&x.muted, 1)
+	case *PlugBody:
+		atomic.StoreInt32(&x.muted, 1)
+	}
 }
 
 // VetoStatus is the status returned by a vetoing recording plugin.
@@ -25,6 +41,9 @@ func VetoStatus() *erpc.Status { return erpc.NewStatus(777, "veto-msg", "veto-ca
 func (p *plugCore) Name() string { return p.name }
 
 func (p *plugCore) hit(stage string, seq int32) *erpc.Status {
+	if atomic.LoadInt32(&p.muted) == 1 {
+		return nil
+	}
 	p.mu.Lock()
 	v := p.veto == stage && !p.fired
 	if v {
@@ -40,7 +59,7 @@ func (p *plugCore) hit(stage string, seq int32) *erpc.Status {
 		}
 	}
 	if stage != "PreReadHeader" || v {
-		p.rec.Emit("Hook", "side", p.side, "pl", p.name, "stage", stage, "seq", seq, "verdict", verdict)
+		p.rec.EmitGen(p.gen, "Hook", "side", p.side, "pl", p.name, "stage", stage, "seq", seq, "verdict", verdict)
 	}
 	if v {
 		if p.vkind == "panic" {
@@ -77,7 +96,7 @@ type PlugBody struct{ plugCore }
 
 // NewPlug creates a recording plugin of the given profile ("all", "hdr", "body").
 func NewPlug(rec *Rec, side, name, profile, vetoStage string) erpc.Plugin {
-	core := plugCore{name: name, side: side, rec: rec, veto: vetoStage}
+	core := plugCore{name: name, side: side, rec: rec, veto: vetoStage, gen: rec.Gen()}
 	switch profile {
 	case "hdr":
 		return &PlugHdr{core}
@@ -93,23 +112,51 @@ func (p *PlugAll) PreReadHeader(c erpc.PreCtx) error {
 	}
 	return nil
 }
-func (p *PlugAll) PostReadCallHeader(c erpc.ReadCtx) *erpc.Status { return p.hit("PostReadCallHeader", seqOfRead(c)) }
-func (p *PlugAll) PreReadCallBody(c erpc.ReadCtx) *erpc.Status    { return p.hit("PreReadCallBody", seqOfRead(c)) }
-func (p *PlugAll) PostReadCallBody(c erpc.ReadCtx) *erpc.Status   { return p.hit("PostReadCallBody", seqOfRead(c)) }
-func (p *PlugAll) PostReadPushHeader(c erpc.ReadCtx) *erpc.Status { return p.hit("PostReadPushHeader", seqOfRead(c)) }
-func (p *PlugAll) PreReadPushBody(c erpc.ReadCtx) *erpc.Status    { return p.hit("PreReadPushBody", seqOfRead(c)) }
-func (p *PlugAll) PostReadPushBody(c erpc.ReadCtx) *erpc.Status   { return p.hit("PostReadPushBody", seqOfRead(c)) }
+func (p *PlugAll) PostReadCallHeader(c erpc.ReadCtx) *erpc.Status {
+	return p.hit("PostReadCallHeader", seqOfRead(c))
+}
+func (p *PlugAll) PreReadCallBody(c erpc.ReadCtx) *erpc.Status {
+	return p.hit("PreReadCallBody", seqOfRead(c))
+}
+func (p *PlugAll) PostReadCallBody(c erpc.ReadCtx) *erpc.Status {
+	return p.hit("PostReadCallBody", seqOfRead(c))
+}
+func (p *PlugAll) PostReadPushHeader(c erpc.ReadCtx) *erpc.Status {
+	return p.hit("PostReadPushHeader", seqOfRead(c))
+}
+func (p *PlugAll) PreReadPushBody(c erpc.ReadCtx) *erpc.Status {
+	return p.hit("PreReadPushBody", seqOfRead(c))
+}
+func (p *PlugAll) PostReadPushBody(c erpc.ReadCtx) *erpc.Status {
+	return p.hit("PostReadPushBody", seqOfRead(c))
+}
 func (p *PlugAll) PostReadReplyHeader(c erpc.ReadCtx) *erpc.Status {
 	return p.hit("PostReadReplyHeader", seqOfRead(c))
 }
-func (p *PlugAll) PreReadReplyBody(c erpc.ReadCtx) *erpc.Status  { return p.hit("PreReadReplyBody", seqOfRead(c)) }
-func (p *PlugAll) PostReadReplyBody(c erpc.ReadCtx) *erpc.Status { return p.hit("PostReadReplyBody", seqOfRead(c)) }
-func (p *PlugAll) PreWriteCall(c erpc.WriteCtx) *erpc.Status     { return p.hit("PreWriteCall", seqOfWrite(c)) }
-func (p *PlugAll) PostWriteCall(c erpc.WriteCtx) *erpc.Status    { return p.hit("PostWriteCall", seqOfWrite(c)) }
-func (p *PlugAll) PreWriteReply(c erpc.WriteCtx) *erpc.Status    { return p.hit("PreWriteReply", seqOfWrite(c)) }
-func (p *PlugAll) PostWriteReply(c erpc.WriteCtx) *erpc.Status   { return p.hit("PostWriteReply", seqOfWrite(c)) }
-func (p *PlugAll) PreWritePush(c erpc.WriteCtx) *erpc.Status     { return p.hit("PreWritePush", seqOfWrite(c)) }
-func (p *PlugAll) PostWritePush(c erpc.WriteCtx) *erpc.Status    { return p.hit("PostWritePush", seqOfWrite(c)) }
+func (p *PlugAll) PreReadReplyBody(c erpc.ReadCtx) *erpc.Status {
+	return p.hit("PreReadReplyBody", seqOfRead(c))
+}
+func (p *PlugAll) PostReadReplyBody(c erpc.ReadCtx) *erpc.Status {
+	return p.hit("PostReadReplyBody", seqOfRead(c))
+}
+func (p *PlugAll) PreWriteCall(c erpc.WriteCtx) *erpc.Status {
+	return p.hit("PreWriteCall", seqOfWrite(c))
+}
+func (p *PlugAll) PostWriteCall(c erpc.WriteCtx) *erpc.Status {
+	return p.hit("PostWriteCall", seqOfWrite(c))
+}
+func (p *PlugAll) PreWriteReply(c erpc.WriteCtx) *erpc.Status {
+	return p.hit("PreWriteReply", seqOfWrite(c))
+}
+func (p *PlugAll) PostWriteReply(c erpc.WriteCtx) *erpc.Status {
+	return p.hit("PostWriteReply", seqOfWrite(c))
+}
+func (p *PlugAll) PreWritePush(c erpc.WriteCtx) *erpc.Status {
+	return p.hit("PreWritePush", seqOfWrite(c))
+}
+func (p *PlugAll) PostWritePush(c erpc.WriteCtx) *erpc.Status {
+	return p.hit("PostWritePush", seqOfWrite(c))
+}
 
 func (p *PlugHdr) PreReadHeader(c erpc.PreCtx) error {
 	if st := p.hit("PreReadHeader", 0); st != nil {
@@ -117,15 +164,31 @@ func (p *PlugHdr) PreReadHeader(c erpc.PreCtx) error {
 	}
 	return nil
 }
-func (p *PlugHdr) PostReadCallHeader(c erpc.ReadCtx) *erpc.Status { return p.hit("PostReadCallHeader", seqOfRead(c)) }
-func (p *PlugHdr) PostReadPushHeader(c erpc.ReadCtx) *erpc.Status { return p.hit("PostReadPushHeader", seqOfRead(c)) }
+func (p *PlugHdr) PostReadCallHeader(c erpc.ReadCtx) *erpc.Status {
+	return p.hit("PostReadCallHeader", seqOfRead(c))
+}
+func (p *PlugHdr) PostReadPushHeader(c erpc.ReadCtx) *erpc.Status {
+	return p.hit("PostReadPushHeader", seqOfRead(c))
+}
 
-func (p *PlugBody) PreReadCallBody(c erpc.ReadCtx) *erpc.Status  { return p.hit("PreReadCallBody", seqOfRead(c)) }
-func (p *PlugBody) PostReadCallBody(c erpc.ReadCtx) *erpc.Status { return p.hit("PostReadCallBody", seqOfRead(c)) }
-func (p *PlugBody) PreReadPushBody(c erpc.ReadCtx) *erpc.Status  { return p.hit("PreReadPushBody", seqOfRead(c)) }
-func (p *PlugBody) PostReadPushBody(c erpc.ReadCtx) *erpc.Status { return p.hit("PostReadPushBody", seqOfRead(c)) }
-func (p *PlugBody) PreWriteReply(c erpc.WriteCtx) *erpc.Status   { return p.hit("PreWriteReply", seqOfWrite(c)) }
-func (p *PlugBody) PostWriteReply(c erpc.WriteCtx) *erpc.Status  { return p.hit("PostWriteReply", seqOfWrite(c)) }
+func (p *PlugBody) PreReadCallBody(c erpc.ReadCtx) *erpc.Status {
+	return p.hit("PreReadCallBody", seqOfRead(c))
+}
+func (p *PlugBody) PostReadCallBody(c erpc.ReadCtx) *erpc.Status {
+	return p.hit("PostReadCallBody", seqOfRead(c))
+}
+func (p *PlugBody) PreReadPushBody(c erpc.ReadCtx) *erpc.Status {
+	return p.hit("PreReadPushBody", seqOfRead(c))
+}
+func (p *PlugBody) PostReadPushBody(c erpc.ReadCtx) *erpc.Status {
+	return p.hit("PostReadPushBody", seqOfRead(c))
+}
+func (p *PlugBody) PreWriteReply(c erpc.WriteCtx) *erpc.Status {
+	return p.hit("PreWriteReply", seqOfWrite(c))
+}
+func (p *PlugBody) PostWriteReply(c erpc.WriteCtx) *erpc.Status {
+	return p.hit("PostWriteReply", seqOfWrite(c))
+}
 
 // RawFrame is a frame of the default (raw) protocol parsed from captured bytes.
 type RawFrame struct {
